@@ -8,7 +8,7 @@ use ant_evm::ProofOfPayment;
 use ant_protocol::storage::{
     try_deserialize_record, try_serialize_record, Chunk, RecordHeader, RecordKind, Scratchpad, Transaction,
 };
-use ant_registers::SignedRegister;
+use ant_registers::{Permissions, Register, SignedRegister};
 use bytes::Bytes;
 use libp2p::kad::{Record, RecordKey};
 use proptest::prelude::*;
@@ -19,8 +19,9 @@ use vh_core::Ctx;
 pub enum RecCase {
     /// arbitrary record value
     Bytes { value: Raw },
-    /// a well-formed record (`kind` 0..8, payload = chunk | scratchpad), then cut / corrupted
-    Built { kind: u8, scratchpad: bool, payload: Raw, key_seed: u64, cut: Option<u16>, flip: Option<(u16, u8)> },
+    /// a well-formed record (header `kind` 0..8; `payload_type` 0 chunk, 1 scratchpad, 2 signed
+    /// register, 3 transactions, 4 (empty proof of payment, chunk)), then cut / corrupted
+    Built { kind: u8, payload_type: u8, payload: Raw, key_seed: u64, cut: Option<u16>, flip: Option<(u16, u8)> },
 }
 
 const KINDS: [RecordKind; 8] = [
@@ -65,13 +66,13 @@ pub fn strategy() -> BoxedStrategy<RecCase> {
     .prop_map(|b| RecCase::Bytes { value: Raw::of(&b) });
     let built = (
         0u8..8,
-        any::<bool>(),
+        0u8..5,
         prop_oneof![Just(vec![]), proptest::collection::vec(any::<u8>(), 0..120)],
         0u64..16,
         proptest::option::weighted(0.4, any::<u16>()),
         proptest::option::weighted(0.4, (any::<u16>(), any::<u8>())),
     )
-        .prop_map(|(kind, scratchpad, p, key_seed, cut, flip)| RecCase::Built { kind, scratchpad, payload: Raw::of(&p), key_seed, cut, flip });
+        .prop_map(|(kind, payload_type, p, key_seed, cut, flip)| RecCase::Built { kind, payload_type, payload: Raw::of(&p), key_seed, cut, flip });
     prop_oneof![1 => bytes, 1 => built].boxed()
 }
 
@@ -130,18 +131,38 @@ pub fn check(c: &RecCase, ctx: &mut Ctx) {
             ctx.sample = Some(serde_json::json!({ "record_value_hex": value.hex }));
             parse_all(b, ctx);
         }
-        RecCase::Built { kind, scratchpad, payload, key_seed, cut, flip } => {
+        RecCase::Built { kind, payload_type, payload, key_seed, cut, flip } => {
             let kind = KINDS[(*kind % 8) as usize];
             let payload = payload.bytes();
-            let bytes = if *scratchpad {
-                // unsigned, empty scratchpad: `update_and_sign` encrypts with the OS RNG, which would
-                // make the record bytes (and so the cut/flip cases) differ from run to run
-                let sp = Scratchpad::new(secret_key(*key_seed).public_key(), payload.len() as u64);
-                guarded(ctx, "try_serialize_record", || try_serialize_record(&sp, kind))
-            } else {
-                let chunk = Chunk::new(Bytes::from(payload.clone()));
-                guarded(ctx, "try_serialize_record", || try_serialize_record(&chunk, kind))
-            };
+            let sk = secret_key(*key_seed);
+            let pk = sk.public_key();
+            let chunk = Chunk::new(Bytes::from(payload.clone()));
+            // unsigned, empty scratchpad: `update_and_sign` encrypts with the OS RNG, which would
+            // make the record bytes (and so the cut/flip cases) differ from run to run
+            let sp = Scratchpad::new(pk, payload.len() as u64);
+            let mut meta = [0u8; 32];
+            for (i, b) in payload.iter().take(32).enumerate() {
+                meta[i] = *b;
+            }
+            let ptype = *payload_type % 5;
+            // BLS signing costs ~1 ms: only for the payload type of this case
+            let reg = (ptype == 2).then(|| {
+                let writers = (0..payload.len() % 3).map(|i| secret_key(*key_seed + 100 + i as u64).public_key());
+                let r = Register::new(pk, xor_name::XorName(meta), Permissions::new_with(writers));
+                let sig = sk.sign(r.bytes().unwrap_or_default());
+                SignedRegister::new(r, sig, Default::default())
+            });
+            let txs: Vec<Transaction> = (0..if ptype == 3 { payload.len() % 3 } else { 0 })
+                .map(|i| Transaction::new(pk, vec![secret_key(i as u64).public_key()], meta, vec![(pk, meta)], &sk))
+                .collect();
+            let paid = (ProofOfPayment { peer_quotes: vec![] }, chunk.clone());
+            let bytes = guarded(ctx, "try_serialize_record", || match ptype {
+                0 => try_serialize_record(&chunk, kind),
+                1 => try_serialize_record(&sp, kind),
+                2 => try_serialize_record(reg.as_ref().expect("built"), kind),
+                3 => try_serialize_record(&txs, kind),
+                _ => try_serialize_record(&paid, kind),
+            });
             let bytes = match bytes {
                 Some(Ok(b)) => b.to_vec(),
                 Some(Err(e)) => {
@@ -150,7 +171,8 @@ pub fn check(c: &RecCase, ctx: &mut Ctx) {
                 }
                 None => return,
             };
-            ctx.sample = Some(serde_json::json!({ "kind": format!("{kind:?}"), "scratchpad": scratchpad, "payload_len": payload.len(), "cut": cut, "flip": flip }));
+            ctx.label(["built_chunk", "built_scratchpad", "built_register", "built_transactions", "built_paid_chunk"][ptype as usize]);
+            ctx.sample = Some(serde_json::json!({ "kind": format!("{kind:?}"), "payload_type": ptype, "payload_len": payload.len(), "cut": cut, "flip": flip }));
             if cut.is_none() && flip.is_none() {
                 ctx.label("roundtrip");
                 ctx.nontrivial_if(payload.is_empty());
@@ -160,22 +182,23 @@ pub fn check(c: &RecCase, ctx: &mut Ctx) {
                     Some(o) => ctx.fail("roundtrip:RecordHeader", format!("{kind:?} -> {} -> {o:?}", hex::encode(&bytes[..bytes.len().min(4)]))),
                     None => {}
                 }
-                if !*scratchpad {
-                    let want = Chunk::new(Bytes::from(payload.clone()));
-                    match guarded(ctx, "try_deserialize_record<Chunk>", || try_deserialize_record::<Chunk>(&record)) {
-                        Some(Ok(c)) if c == want => {}
-                        Some(o) => ctx.fail("roundtrip:record_chunk", format!("{} payload bytes -> {o:?}", payload.len())),
-                        None => {}
-                    }
-                } else {
-                    match guarded(ctx, "try_deserialize_record<Scratchpad>", || try_deserialize_record::<Scratchpad>(&record)) {
-                        Some(Ok(s))
-                            if s.count() == 0
-                                && s.data_encoding() == payload.len() as u64
-                                && *s.owner() == secret_key(*key_seed).public_key() => {}
-                        Some(o) => ctx.fail("roundtrip:record_scratchpad", format!("{} payload bytes -> {o:?}", payload.len())),
-                        None => {}
-                    }
+                let ok = match ptype {
+                    0 => guarded(ctx, "try_deserialize_record<Chunk>", || try_deserialize_record::<Chunk>(&record)).map(|r| r.ok() == Some(chunk.clone())),
+                    1 => guarded(ctx, "try_deserialize_record<Scratchpad>", || try_deserialize_record::<Scratchpad>(&record)).map(|r| {
+                        r.map(|s| s.count() == 0 && s.data_encoding() == payload.len() as u64 && *s.owner() == pk).unwrap_or(false)
+                    }),
+                    2 => guarded(ctx, "try_deserialize_record<SignedRegister>", || try_deserialize_record::<SignedRegister>(&record))
+                        .map(|r| r.map(|s| Some(&s) == reg.as_ref() && s.verify().is_ok()).unwrap_or(false)),
+                    3 => guarded(ctx, "try_deserialize_record<Vec<Transaction>>", || try_deserialize_record::<Vec<Transaction>>(&record))
+                        .map(|r| r.map(|t| t == txs && t.iter().all(|t| t.verify())).unwrap_or(false)),
+                    _ => guarded(ctx, "try_deserialize_record<(ProofOfPayment,Chunk)>", || try_deserialize_record::<(ProofOfPayment, Chunk)>(&record))
+                        .map(|r| r.map(|p| p == paid).unwrap_or(false)),
+                };
+                if ok == Some(false) {
+                    ctx.fail(
+                        format!("roundtrip:record_payload_type_{ptype}"),
+                        format!("payload type {ptype}, {} payload bytes, record {} did not come back equal", payload.len(), hex::encode(&bytes)),
+                    );
                 }
                 return;
             }
